@@ -1,11 +1,128 @@
 (* C15 — compiled automata accept exactly the language of the expression that
    built them.  Statements only. *)
 From Coq Require Import List NArith Bool.
-From SNT Require Import Base.Outcome Automata.Regex Automata.NFA Automata.Build Automata.Compile.
+From SNT Require Import Base.Outcome Automata.Regex Automata.NFA Automata.Build Automata.Compile
+  Automata.BuildLeaves Automata.BuildProofs Automata.CompileSpec Automata.CompileProofs Automata.BuildKeys
+  Automata.C15Main Automata.RegexProofs Automata.CompileTotal.
 Import ListNotations.
 Local Open Scope N_scope.
+
+(* The NFA built by the public combinators for an expression has a path from its
+   start state to its stop state labelled s exactly when the expression matches
+   s: every expression (arbitrary nesting), every string. *)
+Theorem C15_build : forall (e : regex) (s : list N),
+  accepts (build e) s <-> matches e s.
+Proof. exact build_accepts. Qed.
+
+(* it is well formed (start, stop and every edge target exist) and starts at 0 *)
+Theorem C15_build_wf : forall e : regex, wf (build e) /\ start (build e) = 0%nat.
+Proof. intros e. split; [apply build_wf|apply build_start]. Qed.
+
+Check C15_build : forall (e : regex) (s : list N), accepts (build e) s <-> matches e s.
+
+(* NFA::compile and DFA stepping, for ANY NFA whose edge lists are maps (keys_ok;
+   true of every built NFA, C15_build_keys): whenever compile returns (it is
+   modelled with fuel), stepping the DFA through any byte string never panics
+   and
+   - reports a dead transition (None) exactly when no NFA state is reachable
+     by the string, otherwise ends in a state k such that
+   - k is accepting iff the NFA's stop state is reachable by the string,
+   - the tags of k are exactly the tags of the NFA states reachable by it,
+   - k is terminal only if every byte has no transition from k, and then no
+     extension of the string reaches any NFA state.
+   RS n s z : NFA state z is reachable from the start state by s. *)
+Theorem C15_compile : forall (fuel cf : nat) (n : nfa) (d : dfa),
+  keys_ok n -> compile fuel cf n = Ok d ->
+  forall s, bytes s ->
+    exists r, transition_many d (dstart d) s = Ok r /\
+      match r with
+      | None => forall z, ~ RS n s z
+      | Some k =>
+          exists i, info d k = Ok i /\
+            (exists z, RS n s z) /\
+            (accepting i = true <-> RS n s (stop n)) /\
+            (forall t, In t (dtags i) <-> exists q, RS n s q /\ has_tag n q t) /\
+            (terminal i = true ->
+               (forall c, (c < 256)%N -> transition d k c = Ok None) /\
+               (forall c w z, ~ RS n (s ++ c :: w) z))
+      end.
+Proof. exact compile_correct. Qed.
+
+Theorem C15_build_keys : forall e : regex, keys_ok (build e).
+Proof. exact build_keys. Qed.
+
+(* The property: the DFA compiled from the NFA built for any expression accepts a
+   byte string iff the expression matches it; DFA::matches returns (no panic). *)
+Theorem C15_main : forall (e : regex) (fuel cf : nat) (d : dfa),
+  compile fuel cf (build e) = Ok d ->
+  forall s, bytes s ->
+    exists b, dfa_matches d s = Ok b /\ (b = true <-> matches e s).
+Proof. exact main_matches. Qed.
+
+(* compile terminates without panic on every well-formed NFA (the model carries
+   fuel; some fuel always suffices), so the statement above is not vacuous:
+   for every expression there is a compiled DFA and it decides the expression *)
+Theorem C15_compile_total : forall n : nfa, wf n -> keys_ok n ->
+  exists fuel cf d, compile fuel cf n = Ok d.
+Proof. exact compile_total. Qed.
+
+Theorem C15_main_unconditional : forall e : regex,
+  exists fuel cf d, compile fuel cf (build e) = Ok d /\
+    forall s, bytes s -> exists b, dfa_matches d s = Ok b /\ (b = true <-> matches e s).
+Proof. exact main_unconditional. Qed.
+
+(* terminal only if no byte can extend the match; a dead transition only if no
+   extension can match *)
+Theorem C15_terminal_dead : forall (e : regex) (fuel cf : nat) (d : dfa),
+  compile fuel cf (build e) = Ok d ->
+  forall s, bytes s ->
+    exists r, transition_many d (dstart d) s = Ok r /\
+      match r with
+      | None => forall w, ~ matches e (s ++ w)
+      | Some k => exists i, info d k = Ok i /\
+                    (accepting i = true <-> matches e s) /\
+                    (terminal i = true -> forall c w, ~ matches e (s ++ c :: w))
+      end.
+Proof. exact main_terminal_dead. Qed.
+
+(* When alternatives of a choice carry tags (tagwf: a tag on an untagged
+   expression, choices of such, untagged expressions; nesting of choices allowed),
+   the tags reported after consuming a string are exactly the tags of the
+   alternatives that match the string. *)
+Theorem C15_tags : forall (e : regex) (fuel cf : nat) (d : dfa),
+  tagwf e = true -> compile fuel cf (build e) = Ok d ->
+  forall s k, bytes s -> transition_many d (dstart d) s = Ok (Some k) ->
+    exists i, info d k = Ok i /\ forall t, In t (dtags i) <-> tag_spec e s t.
+Proof. exact main_tags. Qed.
+
+(* the reference matcher used as property predicate by the correspondence check
+   decides the denotation *)
+Theorem C15_matcher : forall (s : list N) (e : regex), matcher e s = true <-> matches e s.
+Proof. exact matcher_correct. Qed.
+
+Theorem C15_isempty : forall e : regex,
+  (isempty e = true -> forall s, ~ matches e s) /\ (isempty e = false -> exists s, matches e s).
+Proof. exact isempty_correct. Qed.
+
+Check C15_main : forall (e : regex) (fuel cf : nat) (d : dfa),
+  compile fuel cf (build e) = Ok d ->
+  forall s, bytes s -> exists b, dfa_matches d s = Ok b /\ (b = true <-> matches e s).
 
 (* the in-place `optional` of the original code is unsound: (a+ b)? accepts "a" *)
 Theorem C15_optional_inplace_refuted :
   exists e s, (let* d := compile_default (build_v0 e) in dfa_matches d s) = Ok true /\ matcher e s = false.
 Proof. exists (Opt (Seq [Plus (Lit [97]); Lit [98]])), [97]. vm_compute. split; reflexivity. Qed.
+
+Example C15_tags_nonvacuous :
+  let e := Choice [Tag 1 (Lit [97; 98; 99]); Tag 2 (Lit [97; 98; 100]); Tag 3 (Seq [Lit [97]; Many (Pred [98; 99])])] in
+  tagwf e = true /\
+  (let* d := compile_default (build e) in
+   let* r := transition_many d (dstart d) [97; 98; 99] in
+   match r with Some k => let* i := info d k in Ok (dtags i) | None => Ok [] end) = Ok [1; 3].
+Proof. vm_compute. split; reflexivity. Qed.
+
+Example C15_nonvacuous :
+  (let* d := compile_default (build (Opt (Seq [Plus (Lit [97]); Lit [98]]))) in dfa_matches d [97]) = Ok false /\
+  (let* d := compile_default (build (Opt (Seq [Plus (Lit [97]); Lit [98]]))) in dfa_matches d [97; 97; 98]) = Ok true /\
+  matcher (Opt (Seq [Plus (Lit [97]); Lit [98]])) [97; 97; 98] = true.
+Proof. vm_compute. repeat split; reflexivity. Qed.
